@@ -91,26 +91,26 @@ Qed.
 (* pairX_set_send_buf_len since 7c956d7 (PairModel's waiter loop after nni_lmq_resize): the blocked
    senders that fit move, in order, from waq into wmq; each one's send completes with success,
    i.e. the reference on its aio becomes the protocol's *)
-Lemma waiters_frame cap q : forall w w' q' d, admit_waiters cap w q = (w', q', d) -> incl q' q.
+Lemma waiters_frame cap q : forall w w' q' d, takein_waiters cap w q = (w', q', d) -> incl q' q.
 Proof.
-  induction q as [|[a m] r IH]; intros w w' q' d H; cbn [admit_waiters] in H.
+  induction q as [|[a m] r IH]; intros w w' q' d H; cbn [takein_waiters] in H.
   - inversion H; subst. apply incl_refl.
   - destruct (lmq_full w cap); [inversion H; subst; apply incl_refl|].
-    destruct (admit_waiters cap (w ++ [m]) r) as [[w1 q1] d1] eqn:E. inversion H; subst.
+    destruct (takein_waiters cap (w ++ [m]) r) as [[w1 q1] d1] eqn:E. inversion H; subst.
     apply incl_tl. eapply IH. exact E.
 Qed.
 Lemma waiters_sum k F s o cap :
   (forall c a nb m, o <> PSend c a nb m) -> NoDup (map fst (pr_waq s)) ->
-  forall q w w' q' d, incl q (pr_waq s) -> admit_waiters cap w q = (w', q', d) ->
+  forall q w w' q' d, incl q (pr_waq s) -> takein_waiters cap w q = (w', q', d) ->
     wsum (fun m => F (OProto, body m)) w + wsum (fun x => F (OAio (fst x), body (snd x))) q
     + s_take F (VPair.view k) s o (map (fun a => Complete a E_OK None) d)
     = wsum (fun m => F (OProto, body m)) w' + wsum (fun x => F (OAio (fst x), body (snd x))) q'
       + s_del F (VPair.view k) s o (map (fun a => Complete a E_OK None) d).
 Proof.
-  intros Ho Hn. induction q as [|[a m] r IH]; intros w w' q' d Hi H; cbn [admit_waiters] in H.
+  intros Ho Hn. induction q as [|[a m] r IH]; intros w w' q' d Hi H; cbn [takein_waiters] in H.
   - inversion H; subst. reflexivity.
   - destruct (lmq_full w cap); [inversion H; subst; reflexivity|].
-    destruct (admit_waiters cap (w ++ [m]) r) as [[w1 q1] d1] eqn:E. inversion H; subst; clear H.
+    destruct (takein_waiters cap (w ++ [m]) r) as [[w1 q1] d1] eqn:E. inversion H; subst; clear H.
     pose proof (IH _ _ _ _ (fun x Hx => Hi x (or_intror Hx)) E) as L.
     assert (K : send_key (VPair.view k) s o a = Some (body m)).
     { rewrite send_key_other by exact Ho. cbn [VPair.view v_att]. apply att_key_in; [exact Hn|]. apply Hi. left. reflexivity. }
@@ -180,7 +180,7 @@ Proof.
   - destruct op; try (inversion H; subst; exact HD).
     + destruct (PAIR_BUF_MAX <? N.of_nat n)%N; [inversion H; subst; exact HD|].
       destruct fr; [|inversion H; subst; exact HD].
-      destruct (admit_waiters n (firstn n (pr_wmq s)) (pr_waq s)) as [[w1 q1] d1] eqn:E. inversion H; subst.
+      destruct (takein_waiters n (firstn n (pr_wmq s)) (pr_waq s)) as [[w1 q1] d1] eqn:E. inversion H; subst.
       apply (disj_sub s); simp_p; [apply incl_refl|exact (waiters_frame _ _ _ _ _ _ E)|exact HD].
     + destruct (PAIR_BUF_MAX <? N.of_nat n)%N; inversion H; subst; exact HD.
     + destruct k; [inversion H; subst; exact HD|].
@@ -280,7 +280,7 @@ Proof.
     + destruct (PAIR_BUF_MAX <? N.of_nat n)%N; [inversion H; subst; cbn; lia|].
       pose proof (wsum_firstn_skipn (fun m => F (OProto, body m)) n wmq) as FS.
       destruct fr.
-      * destruct (admit_waiters n (firstn n wmq) waq) as [[w1 q1] d1] eqn:E.
+      * destruct (takein_waiters n (firstn n wmq) waq) as [[w1 q1] d1] eqn:E.
         pose proof (waiters_sum k F (mkPair p0 ttl wmq wcap waq rmq rcap raq rd wr sn rdb wrb) (PSetOpt c (OSendBuf n)) n
                       ltac:(intros; discriminate) I6 waq (firstn n wmq) w1 q1 d1 (incl_refl _) E) as L.
         assert (T0 : o_tx F (map (fun a => Complete a E_OK None) d1) = 0) by apply (o_tx_fail F E_OK).
